@@ -230,6 +230,22 @@ pub fn dump_container(path: &Path, opts: &DumpOpts) -> J {
         indexes.insert(n.clone(), dump_index(&od, n));
     }
     out.insert("indexes".into(), J::Object(indexes));
+    // second use of the same directory pack object: every index header asked again by its id,
+    // highest id first (an answer remembered from the first pass, or from a later index, must
+    // still be the checked one)
+    {
+        use jbk::reader::Range;
+        let mut by_id = Map::new();
+        for k in (0..(opts.index_names.len() as u32 + 1)).rev() {
+            let node = match crate::catch(|| od.dir.get_index(k.into())) {
+                Ok(Ok(ix)) => json!({"offset": ix.offset().into_u32(), "count": ix.count().into_u32(), "store": ix.get_store_id().into_u32()}),
+                Ok(Err(e)) => jerr(e),
+                Err(p) => json!({"panic": p}),
+            };
+            by_id.insert(k.to_string(), node);
+        }
+        out.insert("indexes_by_id".into(), J::Object(by_id));
+    }
     let mut contents = Map::new();
     let mut packs = Map::new();
     for &p in &opts.pack_ids {
